@@ -251,6 +251,7 @@ theorem nameInv_step {s s' : St} (h : NameInv s) (st : Step s s') : NameInv s' :
       exact ⟨b', hb', hv ▸ hx⟩
   | regLabel l _ => exact nameInv_mapFrames _ (fun b => ⟨rfl, rfl, rfl⟩) h
   | ctl i _ hd hu => exact nameInv_push h i hd (by intro v hv; rw [hu] at hv; cases hv)
+  | emitRet i _ _ hd _ hu => exact nameInv_push h i hd (by intro v hv; rw [hu] at hv; cases hv)
   | ctlVia k i _ hd hu =>
     unfold St.pushVia
     refine nameInv_push ?_ i hd (by intro v hv; rw [hu] at hv; cases hv)
